@@ -62,7 +62,7 @@ def line_not_matching_is_rejected(kind):
     check(o.raised_in(ALLOWED), "a line that is not a frame is refused with PacketInvalid or ValueError only")
 
 
-@harness("C01", cases=SHAPED, quick=lambda ln, n, nl: n in (1, 2, 3, 6, 24, 48),
+@harness("C01", cases=SHAPED, quick=lambda ln, n, nl: n in (1, 3, 48),
          subst={_packet.pkt_lifespan: pkt_lifespan_may_raise})
 def line_matching_is_decoded_or_rejected(ln, n, nl):
     """Any string of a frame-regex length -- every character symbolic, any 4-character RSSI
